@@ -168,7 +168,17 @@ struct C12 : Scenario {
 		else if (kind == 4) m = gen_dir(rng, o.level, gen_name(rng, 6) + "/", o);
 		else m = gen_symlink(rng, o.level, dir, gen_name(rng, 5), rng.chance(1, 2) ? "../" + gen_name(rng, 4) : gen_name(rng, 6), o);
 		if (m.os == 'K' && m.level == 2) m.os = 'U';
-		if (m.level >= 1 && rng.chance(1, 4)) {
+		if (m.level <= 1 && m.kind == 'f' && rng.chance(1, 3)) {
+			// the barest form of a level-0/1 header: name in the base header, no extended area, no extended headers, and
+			// an OS byte of zero now and then - nothing but the base header's own fields stands between a wrong length
+			// byte and acceptance
+			m.ext.clear();
+			m.l0ext.clear();
+			m.inname = to_bytes(m.gname.empty() ? std::string("bare") : m.gname.substr(0, 40));
+			m.gpath.clear();
+			if (rng.chance(1, 2)) m.os = 0;
+			m.time = dos_time_from_unix(1000000000 + (int64_t) rng.below(100000000) * 2, 0);
+		} else if (m.level >= 1 && rng.chance(1, 4)) {
 			// further known header types anywhere in the chain (OS-9, Windows time stamps, user/group names): decoding one
 			// must not disturb what another one established
 			static const uint8_t types[] = {0xcc, 0x41, 0x52, 0x53, 0xcc};
